@@ -239,6 +239,33 @@ def mon_c09(sc, controller, outcome):
         dem = demanded_and_sources(sc, controller, strict=True)
         if not any(any(k >= ml for k in t[1:]) for i in dem for t in dem[i]):
             vio.append({"law": "loop error although no demanded sub-step reached the bound", "max_loop": ml, "outcome": outcome})
+    if outcome.startswith("failed SimulationError loop"):
+        # "loops that settle within the bound are never interrupted": the sub-step index that reached the bound must stand for that
+        # many iterations WITHIN this time step.  The iterations a loop has really made at time T up to a step with index k at tier j
+        # are k minus the smallest tier-j index any simulator has begun at T (same outer tiers): without a carried-over index that
+        # smallest index is 0.  A time-shifted trigger connection inside a group carries the sub-step index of its source step into
+        # the next time step, and a weak connection adds its sub-step to an output dated into the future (finding
+        # C09-shift-carries-substep): the loop at the later time starts at a positive index.
+        dem = demanded_and_sources(sc, controller, strict=True)
+        begun = [tuple(e[2]) for e in controller.full_trace if e[0] == "begin"]
+        begun_by = {i: {tuple(e[2]) for e in controller.full_trace if e[0] == "begin" and sid_i(e[1]) == i} for i in dem}
+        offenders = [(i, t) for i in dem for t in dem[i] if any(k >= ml for k in t[1:]) and t not in begun_by[i]]
+        real = []
+        for (i, t) in offenders:
+            j = next(x for x in range(1, len(t)) if t[x] >= ml)
+            base = min([b[j] for b in begun if len(b) > j and b[:j] == t[:j]] + [t[j]])
+            real.append((i, t, t[j] - base))
+        if offenders and all(r < ml for (_, _, r) in real):
+            def in_group(c):
+                return bool(sc["sims"][c["src"]]["group"][:1]) and sc["sims"][c["src"]]["group"][:1] == sc["sims"][c["dst"]]["group"][:1]
+            # a trigger connection inside a group that delivers into a LATER time step with sub-step tiers added: a time-shifted one
+            # (keeps the source step's index), or a weak one carrying an output dated into the future (index 1 at the later time)
+            carrier = any(in_group(c) and is_trigger(sc["sims"][c["dst"]]["type"], c["dattr"]) and
+                          (c["ts"] or (c["weak"] and sc.get("future_outputs"))) for c in sc["connects"])
+            vio.append({"law": "a loop that settles within the bound at every time step was interrupted (the sub-step index that reached the "
+                               "bound was not made within this time step)", "max_loop": ml, "outcome": outcome,
+                        "blocked_steps": [{"sim": i, "step": list(t), "iterations_within_this_time_step": r} for (i, t, r) in real],
+                        "finding": "C09-shift-carries-substep" if carrier else None})
     if sc.get("loop_len", 0) >= 10 ** 6 and is_trigger(sc["sims"][0]["type"], 1) and not any(s.get("via_parent") for s in sc["sims"]):
         # loop family, never-settling variant: every member emits its event (with or without a payload) in every sub-step, so once
         # the loop head has stepped only the guard can end the run
